@@ -109,6 +109,10 @@ fn streams(name: String, params: Value) -> Scenario {
             }
             // one message matching all / two of the subscriptions
             e.push(Ev::Deliver(inbound(1, false, 31, &ids, &format!("a{}", t))));
+            // a QoS 2 message for all of them, and the broker repeating it before its PUBREL
+            e.push(Ev::Deliver(inbound(2, false, 33, &ids, "q2-all")));
+            e.push(Ev::Deliver(inbound(2, true, 33, &ids, "q2-all")));
+            e.push(Ev::Deliver(pubrel_in(33)));
             e.push(Ev::Deliver(inbound(0, false, 0, &[ids[0], ids[1]], &format!("p{}", t))));
             e.push(Ev::Deliver(inbound(0, false, 0, &[ids[1], ids[2]], &format!("q{}", t))));
             // another caller keeps working
